@@ -224,6 +224,13 @@ func (x *Exec) applySpec(s *State, spec *FuncSpec, evName string, vars map[strin
 	}
 	for _, c := range spec.Requires {
 		g := env.evalBool(c.Expr)
+		if mentionsCall(c.Expr, "held") {
+			// a lock the callee expects its caller to hold: part of the ownership discipline
+			if x.checkOwn {
+				x.emit(s, "owns", "callee_requires_lock:"+shortName(spec.Name), x.spec.Owns, g, c)
+			}
+			continue
+		}
 		if g == "true" {
 			continue
 		}
@@ -538,6 +545,14 @@ func (x *Exec) checkAccess(s *State, loc *Loc, write bool, in ssa.Instruction) {
 	if mu, ok := ts.Guarded[field]; ok {
 		h, held := s.held[loc.Base+"|"+tn+"."+mu]
 		good := held && (h.Write || !write)
+		if !good {
+			// a sub-object reachable only through its owner may be accessed under the owner's lock
+			if ownerLock, isOwned := s.ownedBy[loc.Base]; isOwned {
+				if oh, ok := s.held[ownerLock]; ok && (oh.Write || !write) {
+					good = true
+				}
+			}
+		}
 		if ow, isOwned := ts.Owned[field]; isOwned && !good {
 			_ = ow
 		}
@@ -701,4 +716,16 @@ func (x *Exec) resolveCode(s *State, code string, sig *types.Signature) *ssa.Fun
 	}
 	x.resolveCache[key] = nil
 	return nil
+}
+
+func mentionsCall(e *SExpr, fn string) bool {
+	if e.Op == "call" && e.Args[0].Op == "id" && e.Args[0].Tok == fn {
+		return true
+	}
+	for _, a := range e.Args {
+		if mentionsCall(a, fn) {
+			return true
+		}
+	}
+	return false
 }
